@@ -50,3 +50,34 @@ Lemma freed_while_queued_repaired_w :
   let s := run fixed_cfg f17_sched (init 0%nat [0; 1]%nat f17_progs) in
   uaf s = 0%nat /\ destr s = 1%nat /\ freed s = true /\ sumh (thrs s) = 0%nat.
 Proof. vm_compute. repeat split. Qed.
+
+(* ------------------------------------------------------------------------------------------------ *)
+(* The property-level theorems, for the configuration read from the tree being checked               *)
+(* ------------------------------------------------------------------------------------------------ *)
+From SV Require Import c05.Proofs_C05_inv c05.Proofs_C05_step c05.Proofs_C05_step2 c05.Proofs_C05_reclaim.
+
+Lemma no_uaf_repo : forall cr regs progs sched, (cr < List.length progs)%nat ->
+  uaf (run repo_cfg sched (init cr regs progs)) = O.
+Proof. rewrite repo_cfg_fixed. exact no_uaf. Qed.
+
+Lemma destroyed_once_repo : forall cr regs progs sched, (cr < List.length progs)%nat ->
+  let s := run repo_cfg sched (init cr regs progs) in
+  (destr s <= 1)%nat /\ (destr s = 1%nat <-> freed s = true) /\
+  (freed s = true -> sumh (thrs s) = O /\ qs s = []).
+Proof. rewrite repo_cfg_fixed. exact destroyed_once. Qed.
+
+Lemma exclusive_sound_repo : forall cr regs progs sched, (cr < List.length progs)%nat ->
+  let s := run repo_cfg sched (init cr regs progs) in
+  exclbad s = O /\
+  (forall t x s', nth_error (thrs s) t = Some x ->
+     match pcv x with UnqRdOwner | UnqNoneLoad | UnqOwnRdBiased | UnqOwnLoad
+                  | UmRdOwner | UmNoneLoad | UmOwnRdBiased | UmOwnLoad => True | _ => False end ->
+     step repo_cfg t s = Some s' ->
+     owner s' = owner s /\ biased s' = biased s /\ shared s' = shared s /\ freed s' = freed s /\
+     destr s' = destr s /\ qs s' = qs s /\ sumh (thrs s') = sumh (thrs s)).
+Proof. rewrite repo_cfg_fixed. exact exclusive_sound. Qed.
+
+Lemma reclaim_repo : forall cr regs progs sched, (cr < List.length progs)%nat ->
+  let s := run repo_cfg sched (init cr regs progs) in
+  quiescent s -> sumh (thrs s) = O -> qs s = [] -> freed s = true /\ destr s = 1%nat.
+Proof. rewrite repo_cfg_fixed. exact reclaim. Qed.
